@@ -633,6 +633,46 @@ func (c *Ctx) codEnc(which map[string]bool) {
 				}
 				okG = reached > 0 && all
 			}
+			// … and the branch on which the test fails refuses with an error
+			rf := c.acc("COD-5", e.fn, "size>packetMax⇒refused-with-an-error")
+			for _, p := range c.Paths("COD-5", e.fn) {
+				if p.End != pathx.KReturn {
+					continue
+				}
+				binds := pathBindings(p)
+				choice := phiChoicesAll(p)
+				res := func(v ssa.Value) ssa.Value {
+					v = stripConv(v)
+					for d := 0; d < 12; d++ {
+						if b, ok := binds[v]; ok && b != v {
+							v = stripConv(b)
+							continue
+						}
+						if phi, ok := v.(*ssa.Phi); ok {
+							if ch, ok := choice[phi]; ok {
+								v = stripConv(ch)
+								continue
+							}
+						}
+						break
+					}
+					return v
+				}
+				over := hasCmp(assumed(p, 0, -1), func(k cmp) bool {
+					n, ok := intConst(k.Y)
+					// (the size may be computed and tested by a helper that returns it)
+					return ok && (stripConv(k.X) == size || res(k.X) == res(size)) && (k.Op == token.GTR && n == pm || k.Op == token.GEQ && n == pm+1)
+				})
+				if !over {
+					continue
+				}
+				if retErr(p, len(p.Events)-1) == triNonNil {
+					rf.pass()
+				} else {
+					rf.fail(p, len(p.Events)-1, "the size is found beyond packetMax and the function returns without an error: the caller goes on with no packet (or a malformed one) as if the request were valid")
+				}
+			}
+			rf.done(0, "every path with size > packetMax returns a non-nil error")
 			if okG {
 				a.pass()
 			} else {
